@@ -23,6 +23,8 @@ struct Scenario
 	OutCfg outCfg;
 	SerializationOptions o;
 	DynNode doc;          // dyn family (with programs: some members are never requested)
+	DynNode plan;         // reading program when it differs from the document's own shape (validators that fail)
+	bool hasPlan = false;
 	Zoo zooValue;         // zoo family
 	std::string bytes;    // the intact document
 	ArchiveOps* ops = nullptr;
@@ -96,7 +98,7 @@ static SubResult DoLoad(Scenario& sc, const std::string& bytes, sim::InFaults fa
 		}
 		else
 		{
-			DynNode target = Skeleton(sc.doc);
+			DynNode target = Skeleton(sc.hasPlan ? sc.plan : sc.doc);
 			t_failAllocNext = failAlloc;
 			res.r.Set(LoadDynWith(*sc.ops, target, bytes, sc.o, c, faults, throwMode, &info));
 			res.allocs = t_lastCallAllocs;
@@ -246,6 +248,26 @@ Outcome RunC20(RunCtx& ctx)
 	}
 	case F_ALLOC_LOAD:
 	{
+		if (!sc.zoo && s.chance(sim::L_PROG, 1, 2))
+		{
+			// the reading program expects Required() members the document does not have: the validators' messages, the paths and
+			// the ValidationException are built while allocations fail
+			sc.plan = sc.doc;
+			uint32_t idx = 0;
+			ForEachNode(sc.plan, [&](DynNode& n)
+			{
+				if (n.kind != K::Obj || !s.chance(sim::L_PROG, 1, 2)) return;
+				Key k;
+				k.s = "reqAbsent" + std::to_string(idx++);
+				n.keys.push_back(k);
+				DynNode r(K::I32);
+				r.required = true;
+				n.items.push_back(r);
+				if (n.useProgram) { ReqOp op; op.type = ReqOp::Get; op.member = static_cast<uint32_t>(n.items.size() - 1); n.program.push_back(op); }
+			});
+			sc.hasPlan = idx > 0;
+			if (sc.hasPlan) { ctx.count("alloc_load_with_failing_validators"); sim::probe("alloc-fault-with-failing-validators"); }
+		}
 		SubResult whole = DoLoad(sc, sc.bytes, {}, false, 0);
 		const uint64_t K = whole.allocs;
 		for (uint64_t k = 1; k <= K && k <= 4000; ++k)
